@@ -41,7 +41,7 @@ def setup_worker():
 
 def plan(tier):
     if tier == 'thorough':
-        return {'cases': 150000, 'chunk': 200, 'budget_s': 1200, 'case_timeout_s': 60, 'minimise_budget_s': 120}
+        return {'cases': 1200000, 'chunk': 500, 'budget_s': 1200, 'case_timeout_s': 60, 'minimise_budget_s': 120}
     return {'cases': 60000, 'chunk': 250, 'budget_s': 70, 'case_timeout_s': 60, 'minimise_budget_s': 60}
 
 
